@@ -6,7 +6,15 @@ import SLV.Model.Eq
 namespace SLV
 open Scalar
 
-variable {α : Type} [CmpScalar α]
+/-- the scalar type's default tolerance (`approx`: `default_epsilon` = `default_max_relative` = machine epsilon) -/
+class DefaultTol (α : Type) where
+  eps : α
+
+instance {f : Fmt} : DefaultTol (XQ f) := ⟨.fin f.eps⟩
+instance : DefaultTol Float := ⟨Float.ofBits 0x3CB0000000000000⟩
+instance : DefaultTol Float32 := ⟨Float32.ofBits 0x34000000⟩
+
+variable {α : Type} [CmpScalar α] [DefaultTol α]
 
 def fuseOpOfNat : Nat → FuseOp
   | 0 => .acm | 1 => .ecm | 2 => .avg | _ => .wgh
@@ -15,6 +23,24 @@ def exceptB (r : Except Label (BOp α)) (tags : List String := []) : Outcome α 
   match r with
   | .ok w => .ok w.flat [] tags
   | .error l => .err l tags
+
+/-- result of a binomial operator; with the variant token `p` the `projection()` of every operand and of the result follow -/
+def exceptBP (r : Except Label (BOp α)) (operands : List (BOp α)) (withP : Bool) (tags : List String := []) : Outcome α :=
+  match r with
+  | .ok w => .ok (w.flat ++ (if withP then operands.map BOp.projection ++ [w.projection] else [])) [] tags
+  | .error l => .err l tags
+
+/-- flags of the checked multinomial constructors: the two predicates of the accepted owner, the same two through each of
+    `views` borrowed views (`as_ref()`, `OpinionRef::from(&w)`, `OpinionRef::from((&simplex, &base_rate))`), and for each of `rts`
+    round trips of a view back to an owned opinion (`cloned()`, `into_opinion()`) the two predicates and "stores the same numbers" -/
+def viewFlags (vac dog : Bool) (views rts : Nat) : List Bool :=
+  [vac, dog] ++ (List.replicate views [vac, dog]).flatten ++ (List.replicate rts [vac, dog, true]).flatten
+
+/-- container families with a rank digit (`M2`, `D3`, …): multi-dimensional domains; the model is shape-agnostic (row-major
+    flattening, the first int is the total size), the harness appends two container-consistency flags to every `ok` result -/
+def isNdVariant (variant : List String) : Bool :=
+  let f := variant.getD 0 ""
+  f.length == 2 && (f.endsWith "2" || f.endsWith "3")
 
 /-- run one protocol operation against the model -/
 def runOp (op : String) (variant : List String) (ints : List Nat) (xs : Array α) : Outcome α :=
@@ -27,7 +53,7 @@ def runOp (op : String) (variant : List String) (ints : List Nat) (xs : Array α
   | "simplex_new" => go do
       let s ← rdSimplex i0
       match Simplex.tryNew s.b s.u with
-      | .ok s => return .ok s.flat [s.isVacuous, s.isDogmatic]
+      | .ok s => return .ok s.flat (viewFlags s.isVacuous s.isDogmatic 1 1)
       | .error l => return .err l
   | "opinion_new" => go do
       let w ← rdOpinion i0
@@ -36,11 +62,11 @@ def runOp (op : String) (variant : List String) (ints : List Nat) (xs : Array α
         | .error l => return .err l
         | .ok s =>
           match s.intoOpinion w.a with
-          | .ok w => return .ok w.flat [w.isVacuous, w.isDogmatic]
+          | .ok w => return .ok w.flat (viewFlags w.isVacuous w.isDogmatic 3 2)
           | .error l => return .err l
       else
         match Opinion.tryNew w.b w.u w.a with
-        | .ok w => return .ok w.flat [w.isVacuous, w.isDogmatic]
+        | .ok w => return .ok w.flat (viewFlags w.isVacuous w.isDogmatic 3 2)
         | .error l => return .err l
   | "bsimplex_new" => go do
       let t ← rdTriple
@@ -96,21 +122,21 @@ def runOp (op : String) (variant : List String) (ints : List Nat) (xs : Array α
       let w ← rdOpinion i0
       let c ← rdCond i0 i1
       match deduce w c with
-      | some r => return .ok r.flat
+      | some r => return .ok r.flat (if variant.contains "shared" then [true] else [])
       | none => return .none'
   | "deduce_with" => go do
       let w ← rdOpinion i0
       let c ← rdCond i0 i1
       let ay ← rdTab i1
       let r := deduceWith w c (fun _ => ay)
-      return .ok r.1.flat [r.2]
+      return .ok r.1.flat ([r.2] ++ (if variant.contains "shared" then [true] else []))
   | "deduce2" => go do
       let n := i0 * i1
       let w ← rdOpinion n
       let c ← rdCond n i2
       let ay ← rdTab i2
       let r := deduceWith w c (fun _ => ay)
-      return .ok r.1.flat [r.2]
+      return .ok r.1.flat ([r.2] ++ (if variant.contains "shared" then [true] else []))
   | "inverse" => go do
       let c ← rdCond i0 i1
       let ax ← rdTab i0
@@ -160,25 +186,32 @@ def runOp (op : String) (variant : List String) (ints : List Nat) (xs : Array α
   | "bproj" => go do
       let w ← rdBOp
       return .ok [w.projection]
+  -- binomial operators: variant token `alias` = the harness passes the SAME object twice (y's scalars are ignored),
+  -- `p` = the projection() method's answers for the operands and the result are appended
   | "bmul" => go do
       let x ← rdBOp; let y ← rdBOp
-      return exceptB (x.mul y)
+      let y := if variant.contains "alias" then x else y
+      return exceptBP (x.mul y) [x, y] (variant.contains "p")
   | "bcomul" => go do
       let x ← rdBOp; let y ← rdBOp
-      return exceptB (x.comul y)
+      let y := if variant.contains "alias" then x else y
+      return exceptBP (x.comul y) [x, y] (variant.contains "p")
   | "bcfuse" => go do
       let x ← rdBOp; let y ← rdBOp
-      return exceptB (x.cfuse y)
+      let y := if variant.contains "alias" then x else y
+      return exceptBP (x.cfuse y) [x, y] (variant.contains "p")
   | "bafuse" => go do
       let x ← rdBOp; let y ← rdBOp; let g ← rdS
-      return exceptB (x.afuse y g)
+      let y := if variant.contains "alias" then x else y
+      return exceptBP (x.afuse y g) [x, y] (variant.contains "p")
   | "bwfuse" => go do
       let x ← rdBOp; let y ← rdBOp; let g ← rdS
-      return exceptB (x.wfuse y g)
+      let y := if variant.contains "alias" then x else y
+      return exceptBP (x.wfuse y g) [x, y] (variant.contains "p")
   | "bdeduce" => go do
       let x ← rdBOp; let c0 ← rdTriple; let c1 ← rdTriple; let ay ← rdS
       let r := x.deduce c0 c1 ay
-      return exceptB r.1 [r.2.toString]
+      return exceptBP r.1 [x] (variant.contains "p") [r.2.toString]
   | "btrans_unc" => go do
       let x ← rdBOp; let t ← rdS
       return exceptB (x.transUnc t)
@@ -190,6 +223,7 @@ def runOp (op : String) (variant : List String) (ints : List Nat) (xs : Array α
       return exceptB (x.transOpp tb td)
   | "blaw" => go do
       let x ← rdBOp; let y ← rdBOp; let z ← rdBOp
+      let y := if variant.contains "alias" then x else y
       let bind2 (a : Except Label (BOp α)) (k : BOp α → Except Label (BOp α)) : Except Label (BOp α) :=
         match a with | .ok v => k v | .error e => .error e
       let lr : Except Label (BOp α) × Except Label (BOp α) := match i0 with
@@ -267,11 +301,12 @@ def runOp (op : String) (variant : List String) (ints : List Nat) (xs : Array α
         return .ok (ts.foldl (fun (o : Opinion α i0) t => o.discount t) w).flat
   | "bvs" => go do
       let x ← rdBOp; let y ← rdBOp; let g ← rdS
+      let y := if variant.contains "alias" then x else y
       let (l, fop) : Except Label (BOp α) × FuseOp := match i0 with
         | 0 => (x.cfuse y, .acm)
         | 1 => (x.afuse y g, .avg)
         | _ => (x.wfuse y g, .wgh)
-      let r := BOp.ofOpinion (fuse fop false x.toOpinion y.toOpinion)
+      let r := BOp.ofOpinion (fuse fop (variant.contains "alias") x.toOpinion y.toOpinion)
       match l with
       | .ok lv => return .ok (lv.flat ++ r.flat)
       | .error e => return { cls := "err", label := e.toString, vals := r.flat }
@@ -291,7 +326,42 @@ def runOp (op : String) (variant : List String) (ints : List Nat) (xs : Array α
       let x ← rdBOp
       let w := x.toOpinion
       return .ok (w.flat ++ (BOp.ofOpinion w).flat)
+  | "bconv_all" => go do
+      -- every conversion path: from / into, back by value (from, into) and by reference (from, into), the simplex view,
+      -- a second trip, and the projections (binomial method, multinomial trait on the converted opinion, method on the way back)
+      let x ← rdBOp
+      let w := x.toOpinion
+      let back := BOp.ofOpinion w
+      return .ok (w.flat ++ w.flat ++ back.flat ++ back.flat ++ back.flat ++ back.flat ++ [x.b, x.d, x.u]
+        ++ back.toOpinion.flat ++ [x.projection] ++ w.projection.toList ++ [back.projection])
+  | "bcmpd" => go do
+      -- approx's macros with arguments left out: epsilon / max_relative default to machine epsilon, max_ulps to 4
+      let x ← rdBOp; let y ← rdBOp; let t ← rdS
+      let e : α := DefaultTol.eps
+      let (kind, eps, maxRel, maxUlps) : Nat × α × α × Nat := match i0 with
+        | 1 => (1, e, e, 4)
+        | 2 => (2, e, e, 4)
+        | 3 => (3, e, e, 4)
+        | 4 => (2, e, t, 4)
+        | 5 => (3, e, e, i1)
+        | 6 => (2, t, e, 4)
+        | _ => (3, t, e, 4)
+      if i0 == 0 || i0 > 7 then return .unsupported
+      let c := Cmp.scalarCmp kind eps maxRel maxUlps
+      return .ok [] [Cmp.bopCmp kind eps maxRel maxUlps x y, c x.b y.b, c x.d y.d, c x.u y.u, c x.a y.a]
+  | "meq_alias" => go do
+      -- an opinion compared with ITSELF (same object): cell-wise IEEE `==`, so false as soon as a cell is NaN
+      let n := if ints.length ≥ 2 then i0 * i1 else i0
+      let x ← rdOpinion n
+      let o := Cmp.opinionEq x x
+      return .ok [] [Cmp.simplexEq x.simplex x.simplex, o, o, Cmp.tabEq x.a x.a, o]
   | _ => .unsupported
+
+/-- `runOp` for every container family: the multi-dimensional ones (`isNdVariant`) carry two more flags on `ok` results
+    (`it`: iteration order = index order, `eq`: the result equals an independently built container) -/
+def runOpV (op : String) (variant : List String) (ints : List Nat) (xs : Array α) : Outcome α :=
+  let r := runOp op variant ints xs
+  if isNdVariant variant && r.cls == "ok" then { r with flags := r.flags ++ [true, true] } else r
 
 /-- which ops report a model `err` as a panic of the implementation (`new(..)`/`unwrap()`) -/
 def errIsPanic (op : String) (variant : List String) : Bool :=
